@@ -149,12 +149,12 @@ DecTWCC(b) ==
 DestTWCC(v) == << v.media >>
 
 \* unit codecs (C16)
-DecRunLengthUnit(b) == IF Len(b) # 2 THEN Rej ELSE
+DecRunLengthUnit(b) == IF Len(b) < 2 THEN Rej ELSE IF Len(b) > 2 THEN NA ELSE
   Ok([ct |-> "rl", typ |-> 0, sym |-> Bits(U16At(b, 0), 13, 2), run |-> U16At(b, 0) % 8192])
-DecStatusVectorUnit(b) == IF Len(b) # 2 THEN Rej ELSE
+DecStatusVectorUnit(b) == IF Len(b) < 2 THEN Rej ELSE IF Len(b) > 2 THEN NA ELSE
   LET w == U16At(b, 0)  c == DecChunkWord(32768 + (w % 32768)) IN Ok(c)
 DecDeltaUnit(b) ==
   IF Len(b) = 1 THEN Ok([t |-> 1, ticks |-> At(b, 0), rem |-> 0])
   ELSE IF Len(b) = 2 THEN LET w == U16At(b, 0) IN Ok([t |-> 2, ticks |-> IF w >= 32768 THEN w - 65536 ELSE w, rem |-> 0])
-  ELSE Rej
+  ELSE IF Len(b) = 0 THEN Rej ELSE NA
 =============================================================================
